@@ -18,6 +18,6 @@ CONSTANTS
   AbandonKeepsTargetId = FALSE
   DirectStaysActive = FALSE
   StaleInsertAfterScrub = FALSE
-INVARIANTS TypeOK TimeoutExact Routing NoLeak Protected
+INVARIANTS TypeOK TimeoutExact Routing NoLeak Protected RoutedProtected
 PROPERTIES TimeoutKeepsConn
 CHECK_DEADLOCK FALSE
